@@ -2,8 +2,8 @@
 """Writes seeded/README.md: the table seeded change -> checks that report it, the neutral refactorings, the last soak."""
 import glob, json, os
 out = ["# Seeded changes and what reports them", "",
-       "Each directory holds `patch.diff` (the change, applies to `/repo` HEAD), `demo.cpp` (passes on the unchanged tree, fails with the change), the author's `README.md` and `meta.json` (what it needs to manifest, what was confirmed, verdict of every check that was run against it; written by `tools/seed_take.sh` and `tools/seed_run.py`).",
-       "A check *reports* a change when it exits 1 with a `VIOLATION` line on a scratch copy of `/repo` with the patch applied. Columns: own = the quick check of the property the change was written against; others = every other quick check that also exits 1 (only filled where all 20 checks were run).", "",
+       "Each directory holds `patch.diff` (the change; `tools/seed_run.py` applies it to a scratch copy of `/repo`), `demo.cpp` (passes on the unchanged tree, fails with the change), the author's `README.md` and `meta.json` (what it needs to manifest, what was confirmed, verdict of every check that was run against it; written by `tools/seed_take.sh` and `tools/seed_run.py`).",
+       "A check *reports* a change when it exits 1 with a `VIOLATION` line on a scratch copy of `/repo` with the patch applied. Columns: own = the quick check of the property the change was written against; others = every other quick check that also exits 1 (only filled where all 20 checks were run; those rows are from an earlier state of the checks, the own column is from the last regression run over all changes).", "",
        "| change | needs to manifest | own check | other checks that report it | inconclusive |", "|---|---|---|---|---|"]
 for d in sorted(glob.glob("/verif/seeded/C*")):
     m = json.load(open(d + "/meta.json"))
@@ -14,11 +14,11 @@ for d in sorted(glob.glob("/verif/seeded/C*")):
     incon = sorted(p for p, v in quick.items() if v.get("exit") == 2)
     out.append("| %s | %s | %s | %s | %s |" % (m["name"], m.get("needs_to_manifest", "").replace("|", "/"), "reported" if own.get("exit") == 1 else ("MISSED" if own else "-"),
                                            " ".join(others) if len(quick) >= 20 else ("(only own check run)" if not others else " ".join(others) + " (partial)"), " ".join(incon)))
-out += ["", "## Property-preserving refactorings (`../neutral/`)", "", "| change | what | checks run | checks that raised an alarm |", "|---|---|---|---|"]
+out += ["", "## Property-preserving refactorings (`../neutral/`)", "", "| change | what | written against | checks run | checks that raised an alarm |", "|---|---|---|---|---|"]
 for d in sorted(glob.glob("/verif/neutral/N*")):
     m = json.load(open(d + "/meta.json"))
     bad = sorted(k for k, v in m["checks"].items() if v.get("exit") != 0)
-    out.append("| %s | %s | %d | %s |" % (m["name"], m["kind"], len(m["checks"]), " ".join(bad) if bad else "none"))
+    out.append("| %s | %s | %s | %d | %s |" % (m["name"], m["kind"], m.get("written_against", ""), len(m["checks"]), " ".join(bad) if bad else "none"))
 if os.path.exists("/verif/seeded/soak.txt"):
     out += ["", "## Last soak on the unchanged tree", "", "```"] + open("/verif/seeded/soak.txt").read().splitlines() + ["```"]
 open("/verif/seeded/README.md", "w").write("\n".join(out) + "\n")
